@@ -4,11 +4,12 @@ import json, os, sys
 VERIF = os.path.dirname(os.path.dirname(os.path.abspath(__file__)))
 tier = sys.argv[1] if len(sys.argv) > 1 else "quick"
 res = json.load(open(os.path.join(VERIF, "seeded", "results_%s.json" % tier)))
+res = {k: {p: v for p, v in r.items() if p != "groups" and isinstance(v, dict)} | {"_groups": r.get("groups")} for k, r in res.items() if isinstance(r, dict)}
 rows = []
 for name in sorted(res):
     meta = json.load(open(os.path.join(VERIF, "seeded", name, "meta.json")))
     what = meta.get("what", "")
-    for prop, r in sorted(res[name].items()) if isinstance(res[name], dict) and "error" not in res[name] else []:
+    for prop, r in sorted((p, v) for p, v in res[name].items() if p != "_groups"):
         verdict = {0: "MISSED (exit 0)", 1: "caught (VIOLATION)", 2: "inconclusive (exit 2)", 3: "broken (exit 3)"}.get(r["exit"], str(r["exit"]))
         rows.append("| %s | %s | %s | %s | %ds | %s |" % (name, prop, what, verdict, r["wall_s"], r.get("first", "")[:110].replace("|", "/")))
 print("| seeded change | check | what it changes | result (%s tier) | time | first violation reported |" % tier)
